@@ -422,6 +422,32 @@ def e2_e3(ctx, prog, bodies):
             tb = _type_byte(e, er[v][1])
             ctx.ob("E3", e.defp, f"{v}:type-byte", loc(e.sp), tb == TYPE_BYTES[style][v], f"{style} {v}: type byte written {tb}, specification {TYPE_BYTES[style][v]}", ordinal=False)
             ctx.ob("E3", d.defp, f"{v}:type-switch-arm", loc(d.sp), dr[v][0] == TYPE_BYTES[style][v], f"{style} {v}: decoder arm for type value {dr[v][0]}, specification {TYPE_BYTES[style][v]}", ordinal=False)
+            # the arm of a type byte builds that variant and no other: a name stays a name, a socket address stays a socket address
+            others = set()
+            for blk in d.rpo():
+                if blk not in dr[v][1]:
+                    continue
+                for s_ in d.stmts(blk):
+                    if s_["k"] == "assign" and s_["rv"]["k"] == "agg" and s_["rv"].get("ak") == "adt":
+                        df, vr = s_["rv"].get("def", ""), s_["rv"].get("variant")
+                        if df.endswith("address::Address"):
+                            kind = "Domain" if vr == "Domain" else "socket"
+                        elif df.endswith("SocketAddr") and vr in ("V4", "V6"):
+                            kind = vr
+                        else:
+                            continue
+                        if kind != v and not (kind == "socket" and v in ("V4", "V6")):
+                            others.add(f"{last_seg(df)}::{vr}")
+                t_ = d.term(blk)
+                if t_ and t_["k"] == "call":
+                    c_ = Callee(t_["f"])
+                    rty = d.local_ty(t_["dest"][0])
+                    if v == "Domain" and ("SocketAddr" in rty or "IpAddr" in rty) and "Result<" in rty or (v == "Domain" and c_.name in ("SocketAddr::new", "str::parse") and ("SocketAddr" in rty or "IpAddr" in rty)):
+                        others.add(c_.name + " -> " + rty[:50])
+            ctx.ob("E3", d.defp, f"{v}:arm-builds-its-own-variant", loc(d.sp), not others,
+                   f"{style} {v}: the arm builds only the {v} form" if not others else
+                   f"{style} {v}: the decoder's arm for the {v} type byte can also produce {sorted(others)}: the decoded address is not the one that was encoded "
+                   "(the two sibling encodings no longer agree on the same name)", ordinal=False)
         # domain length byte and name bytes come from the same string, untransformed
         reg = er.get("Domain", (None, set()))[1]
         len_src = bytes_src = None
